@@ -994,6 +994,15 @@ func execEngine(in J) J {
 				"n_funding": 0, "choices": []int{}, "counts": []int{}, "steps": 0}
 		}
 		run := runEngineSchedule(sc.Requests, sc.Funding, sc.Metadata, p)
+		if run["watchdog"] == true {
+			// a stall of the machine (loaded host) does not repeat, a protocol the scheduler no longer predicts does:
+			// the same plan is run once more before the run is reported
+			if again := runEngineSchedule(sc.Requests, sc.Funding, sc.Metadata, p); again["watchdog"] != true {
+				engWatchdogs--
+				again["retried"] = true
+				run = again
+			}
+		}
 		if sc.Twin { // the same history without its previews (C14)
 			run["twin"] = runEngineSchedule(real, sc.Funding, sc.Metadata, p)
 		}
